@@ -168,9 +168,12 @@ def run_property(pid, tier, seed, out=sys.stdout):
             need_native.add(q)
     from concurrent.futures import ThreadPoolExecutor
     plan = {q: (native_n if q in need_native else max(30, native_n // 5)) for q in fucs}
+    todo_bounded = [b for b in getattr(S, 'BOUNDED', []) if pid in b['props'] and (tier == 'thorough' or b.get('quick', True))]
     with ThreadPoolExecutor(max_workers=12) as tp:
         futs = {q: tp.submit(native_search, q, plan[q], seed) for q in fucs}
+        bfuts = [(b, tp.submit(b['fn'], tier, seed)) for b in todo_bounded]
         native_results = {q: f.result() for q, f in futs.items()}
+        bounded_results = [(b, f.result()) for b, f in bfuts]
     for q in fucs:
         n = plan[q]
         nr = native_results[q]
@@ -324,17 +327,23 @@ def run_property(pid, tier, seed, out=sys.stdout):
             violations.append((name, path, False))
 
     # property-level bounded/native stand-ins registered by the contracts (e.g. end-to-end runs)
-    for b in getattr(S, 'BOUNDED', []):
-        if pid in b['props'] and (tier == 'thorough' or b.get('quick', True)):
-            br = b['fn'](tier, seed)
+    for b, br in bounded_results:
             bounded.append(br)
+            if br.get('error'):
+                undecided.append(dict(obligation='bounded:' + b['name'], why='bounded check did not run: %s' % str(br.get('error'))[:300]))
+            seen_names = set()
             for fail in br.get('failing', []):
-                name = b['name'] + ':' + fail['what']
+                name = 'bounded:' + fail['what']
+                tag = re.search(r'\bC\d\d\b', fail['what'])
+                if name in seen_names or (tag and tag.group(0) != pid):
+                    continue
+                seen_names.add(name)
                 if name in known_open:
                     known_hits.append((known_open[name], dict(obligation=name), fail))
                     continue
                 path = os.path.join(VERIF, 'replays', '%s-%s.json' % (pid, sanitize(name)))
-                json.dump(dict(property=pid, obligation=name, verdict='bounded-check-failure', native=fail),
+                json.dump(dict(property=pid, obligation=name, verdict='bounded-check-failure (run-time check of the real code)',
+                               native=dict(fail, bounded_check=b['name'], tier=tier, seed=seed)),
                           open(path, 'w'), indent=1, default=str)
                 violations.append((name, path, True))
 
@@ -391,6 +400,17 @@ def replay(pid, path):
         print("replay file names obligation %s; verifier output: %s" % (rep.get('obligation'), str(rep.get('solver_output'))[:500]))
         print("VIOLATION property=%s replay=%s no-failing-input-found" % (pid, path))
         return 1
+    if rep['native'].get('bounded_check'):
+        nat = rep['native']
+        from contracts.c_bounded import run_bounded
+        br = run_bounded(nat['bounded_check'], nat.get('tier', 'quick'), nat.get('seed', 1))
+        again = [f for f in br.get('failing', []) if f['what'] == nat['what']]
+        print(json.dumps(again[:3], default=str)[:3000])
+        if again:
+            print("VIOLATION property=%s replay=%s" % (pid, path))
+            return 1
+        print("replay did not reproduce on the current tree")
+        return 0
     if 'qualname' not in rep['native']:
         print(json.dumps(rep['native'])[:2000])
         print("VIOLATION property=%s replay=%s" % (pid, path))
